@@ -4,7 +4,7 @@ import traceback
 
 from . import base
 
-MODULES = ['flags', 'chain', 'core']
+MODULES = ['flags', 'chain', 'core', 'globc']
 
 
 def all_contracts():
